@@ -855,7 +855,9 @@ static void elemSmooth(Src& c, int scenario) {
     double ud = c.replay ? 0 : c.rng->range(0.05, 0.8), us = c.replay ? 0 : ud + c.rng->range(0, 0.5);
     us = c.val(us); ud = c.val(ud); double uv = c.val(c.replay ? 0 : c.rng->range(0, 0.3));
     double vt = c.val(c.replay ? 0 : c.rng->range(0.01, 0.3));
-    double cf = c.val(1e-5), bd = c.val(300.0), bv = c.val(50.0);
+    // defaults in half of the cases, otherwise random smoothing constants
+    bool defSm = c.replay || c.rng->coin();
+    double cf = c.val(defSm ? 1e-5 : std::pow(10.0, c.rng->range(-6, -4))), bd = c.val(defSm ? 300.0 : c.rng->range(100, 500)), bv = c.val(defSm ? 50.0 : c.rng->range(20, 100));
     double radius = c.real(0.1, 1.0);
     Vec3 loc = c.vec(-0.3, 0.3);
     Transform Xhs, Xs, Xh; SpatialVec Vs(Vec3(0), Vec3(0)), Vh(Vec3(0), Vec3(0));
